@@ -88,7 +88,8 @@ NextEv(e) ==
 
 Plain(e, A) == A /\ NoReport /\ ndrift' = ndrift + InternalDrift(e)
 
-\* a crash of the code under test: reported, the model performs the call's documented effect
+\* a crash of the code under test: reported; the model does not move (the driver continues the trace
+\* with a fresh pool and buffer, i.e. a New event)
 PanicEv(e) == /\ Report(e, "panic", [panic |-> e.panic])
               /\ UNCHANGED <<vars, ndrift>>
 
